@@ -286,6 +286,11 @@ func (x *Exec) evalSlice(s *State, e *ast.SliceExpr) *Term {
 	arr := x.fresh("sub", arraySort(SInt, el))
 	k := V("k?", SInt)
 	s.assume(Forall([]*Term{k}, Implies(And(Le(Num(0), k), Lt(k, Sub(hi, lo))), Eq(Select(arr, k), Select(x.u.sliceArr(v), Add(lo, k))))))
+	// the same fact indexed by the source position (gives E-matching a trigger on the source array)
+	u := V("u?", SInt)
+	q := Forall([]*Term{u}, Implies(And(Le(lo, u), Lt(u, hi)), Eq(Select(x.u.sliceArr(v), u), Select(arr, Sub(u, lo)))))
+	q.Pats = [][]*Term{{Select(x.u.sliceArr(v), u)}}
+	s.assume(q)
 	return withType(x.u.mkSlice(v.Sort, Sub(hi, lo), arr), x.info.TypeOf(e))
 }
 
